@@ -5,6 +5,7 @@ import ast
 from fractions import Fraction
 from typing import Dict, List, Optional, Set, Tuple
 
+from ..absint import eval_test, specialise
 from ..cfg import CFG, symbolic_effects, symbolic_returns
 from ..exprnorm import Poly, Rat, norm_test, normalize, conj_test
 from ..report import Run
@@ -171,54 +172,49 @@ def compare_values(prog: Program, run: Run, R: str) -> None:
 
 
 def scale_applies(prog: Program, run: Run, R: str) -> None:
+    """CompuScale.applies as a decision table over (lower limit given?, upper limit given?)."""
     f = prog.func("CompuScale.applies")
-    cfg = CFG(f.node)
     v = f.params()[1]
     C = "CompuScale.applies"
-    cases: Dict[str, str] = {}
-    for r in [x for x in walk_no_nested(f.node) if isinstance(x, ast.Return)]:
-        conds = cfg.branch_conditions(cfg.node_of(r))
-        ctx = []
-        for t, pol in conds:
-            s = norm_test(t, negate=not pol)
-            ctx.append(s)
-        key = "|".join(sorted(ctx))
-        cases[key] = ast.unparse(r.value)
-    vals = list(cases.values())
-    both_none = [k for k in cases if "self.lower_limit is None" in k and
-                 "self.upper_limit is None" in k and "is not" not in k.replace(
-                     "self.lower_limit is None", "").replace("self.upper_limit is None", "")]
-    if any(cases[k] == "True" for k in cases if "self.lower_limit is None" in k and
-           "self.upper_limit is None" in k and "and" in k):
-        run.ok(R, C, "no limits: every value applies", f.loc)
-    else:
-        run.violation(R, C, "no-limits", "a scale without limits does not apply to every value",
-                      f.loc)
-    if f"{v} == self.lower_limit.value" in vals:
-        run.ok(R, C, "only a lower limit: the value must equal it", f.loc)
-    else:
-        run.violation(R, C, "lower-only", "a scale with only a lower limit does not require "
-                      "equality with it", f.loc)
-    if f"{v} == self.upper_limit.value" in vals:
-        run.ok(R, C, "only an upper limit: the value must equal it", f.loc)
-    else:
-        run.violation(R, C, "upper-only", "a scale with only an upper limit does not require "
-                      "equality with it", f.loc)
-    conj = [x for x in vals if "complies_to_lower" in x and "complies_to_upper" in x]
-    good = False
-    for r in [x for x in walk_no_nested(f.node) if isinstance(x, ast.Return)]:
-        e = r.value
-        if isinstance(e, ast.BoolOp) and isinstance(e.op, ast.And) and len(e.values) == 2:
-            parts = {ast.unparse(x) for x in e.values}
-            if parts == {f"self.lower_limit.complies_to_lower({v})",
-                         f"self.upper_limit.complies_to_upper({v})"}:
-                good = True
-    if good:
-        run.ok(R, C, "two limits: lower.complies_to_lower(v) and upper.complies_to_upper(v)", f.loc)
-    else:
-        run.violation(R, C, "two-limits",
-                      "with both limits the value is not required to comply with the lower limit "
-                      "from below and the upper limit from above", f.loc)
+    rets = symbolic_returns(f.node)
+    lo, hi = "self.lower_limit", "self.upper_limit"
+
+    def outcomes(has_lo: bool, has_hi: bool) -> Set[str]:
+        env = {lo: "L" if has_lo else None, hi: "U" if has_hi else None}
+        got = set()
+        for conds, e, _r in rets:
+            if all(eval_test(t, env) in (None, pol) for t, pol in conds):
+                e2 = specialise(e, env)
+                if isinstance(e2, ast.Compare) and len(e2.ops) == 1 and isinstance(
+                        e2.ops[0], ast.Eq):
+                    got.add("eq:" + "|".join(sorted([ast.unparse(e2.left), ast.unparse(
+                        e2.comparators[0])])))
+                elif isinstance(e2, ast.BoolOp) and isinstance(e2.op, ast.And):
+                    got.add("and:" + "|".join(sorted(ast.unparse(x) for x in e2.values)))
+                else:
+                    got.add(ast.unparse(e2) if e2 is not None else "None")
+        return got
+    table = [
+        ((False, False), {"True"}, "no-limits", "no limits: every value applies",
+         "a scale without limits does not apply to every value"),
+        ((True, False), {"eq:" + "|".join(sorted([v, f"{lo}.value"]))}, "lower-only",
+         "only a lower limit: the value must equal it",
+         "a scale with only a lower limit does not require equality with it"),
+        ((False, True), {"eq:" + "|".join(sorted([v, f"{hi}.value"]))}, "upper-only",
+         "only an upper limit: the value must equal it",
+         "a scale with only an upper limit does not require equality with it"),
+        ((True, True), {"and:" + "|".join(sorted([f"{lo}.complies_to_lower({v})",
+                                                  f"{hi}.complies_to_upper({v})"]))},
+         "two-limits", "two limits: lower.complies_to_lower(v) and upper.complies_to_upper(v)",
+         "with both limits the value is not required to comply with the lower limit from below "
+         "and the upper limit from above"),
+    ]
+    for scen, want, key, good, bad in table:
+        got = outcomes(*scen)
+        if got == want:
+            run.ok(R, C, good, f.loc)
+        else:
+            run.violation(R, C, key, f"{bad} (returns {sorted(got)})", f.loc)
 
 
 # ===================================================================== validity vs conversion
